@@ -182,6 +182,28 @@ structure GoJob where
   AllowFrom : List GoString := []
   deriving Repr, DecidableEq
 
+/-- the two ways translated code opens a file for writing: `O_CREATE|O_WRONLY|O_TRUNC` and `O_CREATE|O_WRONLY|O_APPEND` -/
+inductive GoOpenMode where
+  | trunc
+  | append
+  deriving Repr, DecidableEq
+
+/-- an operation of translated code on the file system; an open file is named by the path it was opened on -/
+inductive GoFOp where
+  | open (path : GoString) (mode : GoOpenMode)
+  | write (path : GoString) (data : GoString)
+  | rename (src dst : GoString)
+  | remove (path : GoString)
+  deriving Repr, DecidableEq
+
+/-- `os.FileInfo` as far as translated code looks at it -/
+structure GoFileInfo where
+  size : Int := 0
+  deriving Repr, DecidableEq
+
+/-- `*p` for a pointer that the guard in front of the expression has shown not to be nil -/
+def goDeref {α : Type} [GoZero α] (p : Option α) : α := p.getD GoZero.zero
+
 /-- the external functions translated code calls; their behaviour is a parameter of every
     theorem about generated code -/
 structure Ext where
@@ -218,5 +240,17 @@ structure Ext where
   continuous : List GoJob := []
   /-- `config.Server.MaxConnections` -/
   maxConnections : Int := 0
+  /-- whether an operation on the file system fails, given the operations that succeeded before it -/
+  ioErr : List GoFOp → GoFOp → GoErr := fun _ _ => none
+  /-- `os.Stat(path)` -/
+  osStat : GoString → GoFileInfo × GoErr := fun _ => ({}, some [])
+  /-- the rendered, ordered rows of `GroupSet.result` (the values of each row) -/
+  rowValues : List (List GoString) := []
+
+/-- an operation on the world: it fails (and changes nothing) or it succeeds and joins the history -/
+def goEffect (ext : Ext) (hist : List GoFOp) (op : GoFOp) : List GoFOp × GoErr :=
+  match ext.ioErr hist op with
+  | none => (hist ++ [op], none)
+  | some e => (hist, some e)
 
 end Dtail.Go
